@@ -323,7 +323,7 @@ func (po *parserOps) readerKinds() (first, rest []Kind) {
 }
 
 // The menus list the kinds that touch most per-instance state first: the quick tier enumerates all
-// triples over the first 20 kinds (and all pairs over the whole menu), the thorough tier all quadruples over
+// triples over the first 16 kinds (and all pairs over the whole menu), the thorough tier all quadruples over
 // the first 16 (and all triples over the whole menu).
 func (po *parserOps) jsonMenu() []Kind {
 	rfirst, rrest := po.readerKinds()
